@@ -176,7 +176,7 @@ func ForkScenarios() []Scenario {
 		{Name: "fork-one-client-two-threads", Height: 2, Preload: pre(10, 11, 12, 13), Stored: true, Clients: 1, Fork: true, ByThread: true, Threads: [][]Lookup{{L(0, 0, false)}, {L(0, 1, false), L(0, 10, false)}}},
 		// round 32: the lookup on log A installs a new head A#5 while the lookup on log B, which carries B#5 for a
 		// record of the shared prefix, is between its load of the client's head and its install (lost install race)
-		{Name: "fork-one-client-lost-install", Height: 2, Preload: pre(10, 11, 12, 13), Stored: true, Clients: 1, Fork: true, ByThread: true, Threads: [][]Lookup{{L(0, 20, false)}, {L(0, 10, false)}}},
+		{Name: "fork-one-client-lost-install", Height: 2, Preload: pre(10, 11, 12, 13), Stored: true, Grow: 1, Clients: 1, Fork: true, ByThread: true, Threads: [][]Lookup{{L(0, 20, false)}, {L(0, 10, false)}}},
 		{Name: "fork-two-clients-second-lookup-same-head", Height: 2, Preload: pre(10, 11), Stored: true, Clients: 2, Fork: true, Threads: [][]Lookup{{L(0, 0, false)}, {L(1, 1, false), L(1, 10, false)}}},
 		{Name: "fork-two-clients-two-new-records-on-fork", Height: 2, Preload: pre(10, 11), Stored: true, Clients: 2, Fork: true, Threads: [][]Lookup{{L(0, 0, false)}, {L(1, 1, false), L(1, 3, false)}}},
 		{Name: "fork-two-clients-two-new-records-each-h1", Height: 1, Preload: pre(10), Stored: true, Clients: 2, Fork: true, Threads: [][]Lookup{{L(0, 0, false), L(0, 4, false)}, {L(1, 1, false), L(1, 3, false)}}},
